@@ -124,7 +124,7 @@ impl Property for C17 {
         "C17"
     }
     fn cases(&self, tier: Tier) -> u32 {
-        tier.pick(1600, 20_000)
+        tier.pick(1_600, 16_000)
     }
     fn strategy(&self, _tier: Tier) -> BoxedStrategy<Self::Abs> {
         prop_oneof![
